@@ -210,3 +210,18 @@ _lv("C04", "Kernel: runner onProcessEnd/onProcessSkipped for every exit code, po
     "Stub Commander (victims exit with -1); N=3; preemption at labelled yields/blocking ops; the binary's os.Exit mapping is outside.")
 _lv("C01", "Real runner on 3 processes, every subset of the acyclic edges x the five condition types, dependency behaviours (exit 0/3, runs on, ready line printed or not, one readiness check success/failure delivered at any instant), delay bound d; ground truth (exited, exit 0, probe success seen, line served, released from own dependencies) kept by the stubs and evaluated at every launch.",
     "Stub Commander, scripted stdout, go-health scheduler harness-driven (natively the real exec probe 'true'/'false'); un-replicated dependencies; N=3.")
+
+PROPS["C08"] = {
+    "harnesses": [
+        {"pkg": "app", "name": "VerifC08_History2", "quick": {"d": 0}, "thorough": {"d": 1}, "replay_repeat": 6,
+         "bounds": {"requests": "every sequence of 2 from {start, stop, restart, unknown-name}", "policy": "no/always", "stop latency": "immediate or only when nothing else can happen (choice per instance)"}},
+        {"pkg": "app", "name": "VerifC08_Concurrent", "quick": {"d": 1}, "thorough": {"d": 2}, "replay_repeat": 6,
+         "bounds": {"requests": "two concurrent clients, one request each from {start, stop, restart}", "policy": "no/always"}},
+        {"pkg": "app", "name": "VerifC08_History3", "thorough": {"d": 0}, "replay_repeat": 6,
+         "bounds": {"requests": "every sequence of 3", "policy": "no/always"}},
+    ],
+    "stubs": ["Commander: vCmd with a live-instance counter"],
+    "assumptions": ["requests issued sequentially from one client; concurrent duplicates are covered only by the schedules of the delay bound"],
+}
+_lv("C08", "Real runner, one process plus a bystander, every history of 2 (3 thorough) requests from {start, stop, restart, unknown name}, restart policy no/always, child dies at once or only when nothing else can happen (virtual time lets the restart back-off expire first); at most one live instance at every launch, and the per-request post-conditions of the statement at quiescence.",
+    "Stub Commander; sequential client; preemption at labelled yields/blocking ops.")
